@@ -371,6 +371,7 @@ structure EvCond (p p' : Player) (o : Out) (s : Stream) (e : Ev) : Prop where
   firstclock : p'.firstclock = if p.firstEvent then s.lastclock else p.firstclock
   dclock : o.dclock = o.sclock - p'.firstclock
   unsorted : p'.unsorted = p.unsorted
+  guard : p.unsorted = false → p.firstEvent = false → p.lastclock ≤ s.lastclock
 
 theorem playerStep_cases (p : Player) (hi : Inv p) :
     (playerStep p = .err ∧
@@ -420,7 +421,8 @@ theorem playerStep_cases (p : Player) (hi : Inv p) :
                 lastclock := rfl
                 firstclock := by rw [← f1, hfe]; rfl
                 dclock := rfl
-                unsorted := f4 }
+                unsorted := f4
+                guard := fun _ hh => by rw [← f1, hfe] at hh; cases hh }
       | false =>
         simp only [Bool.false_eq_true, if_false]
         by_cases hg : m.lastclock < p1.lastclock ∧ p1.unsorted = false
@@ -450,7 +452,11 @@ theorem playerStep_cases (p : Player) (hi : Inv p) :
                   lastclock := rfl
                   firstclock := by rw [← f1, hfe]; exact f2
                   dclock := rfl
-                  unsorted := f4 }
+                  unsorted := f4
+                  guard := fun hu _ => by
+                    rw [← f4] at hu; rw [← f3]
+                    have : ¬ m.lastclock < p1.lastclock := fun hh => hg ⟨hh, hu⟩
+                    omega }
 
 theorem live_of_ev {p p' : Player} {o : Out} {s : Stream} {e : Ev} (c : EvCond p p' o s e) :
     live p' = (adv s).toList ++ p'.heap.root.toList := by
@@ -530,6 +536,40 @@ theorem run_dclock (f : Nat) (p : Player) (o0 : Out) (out : List Out) (hi : Inv 
         rcases List.mem_cons.1 ho' with rfl | hin
         · rw [c.dclock, hfc]
         · rw [← hfc]; exact run_dclock_started f p' out' c.inv c.started hrun o' hin
+
+/-- In sorted mode `update_clocks` enforces the order by itself: whatever
+    the streams contain, a replay that does not fail is time-ordered. -/
+theorem run_sorted_mode : ∀ (f : Nat) (p : Player) (out : List Out), Inv p → p.unsorted = false →
+    run f p = some out →
+    out.Pairwise (fun a b => a.sclock ≤ b.sclock) ∧
+    (p.firstEvent = false → ∀ o ∈ out, p.lastclock ≤ o.sclock) := by
+  intro f
+  induction f with
+  | zero => intro p out _ _ h; simp [run] at h
+  | succ f ih =>
+    intro p out hi hu h
+    unfold run at h
+    rcases playerStep_cases p hi with ⟨he, _⟩ | ⟨p1, he, hl⟩ | ⟨p', o, s, e, he, c⟩
+    · rw [he] at h; cases h
+    · rw [he] at h; cases h
+      exact ⟨List.Pairwise.nil, fun _ o ho => by cases ho⟩
+    · rw [he] at h
+      simp only at h
+      cases hrun : run f p' with
+      | none => rw [hrun] at h; cases h
+      | some out' =>
+        rw [hrun] at h
+        simp only [Option.map_some, Option.some.injEq] at h
+        subst h
+        obtain ⟨i1, i2⟩ := ih p' out' c.inv (by rw [c.unsorted]; exact hu) hrun
+        have i3 := i2 c.started
+        rw [c.lastclock, ← c.sclock] at i3
+        refine ⟨List.pairwise_cons.2 ⟨i3, i1⟩, fun hf o' ho' => ?_⟩
+        have hg := c.guard hu hf
+        rw [← c.sclock] at hg
+        rcases List.mem_cons.1 ho' with rfl | hin
+        · exact hg
+        · have := i3 o' hin; omega
 
 /-! ### The loop never fails on sorted streams (nor in unsorted mode) -/
 
@@ -1021,5 +1061,28 @@ theorem traceLoad_perm_eq (l1 l2 : List Raw) (hp : l1.Perm l2) (hn : (l1.map (·
     have hb' : b ∈ l1 := hp.symm.subset (List.mem_mergeSort.1 hb)
     exact eq_of_nodup_map (·.relpath) l1 hn a b ha' hb' (strLe_antisymm _ _ h1 h2)
   · exact (List.mergeSort_perm l1 _).trans (hp.trans (List.mergeSort_perm l2 _).symm)
+
+/-! ### `init_offsets` -/
+
+/-- a loaded stream with the offset of its loom -/
+def mkStream (ls : List (Str × Int)) (r : Raw) : Stream :=
+  { Stream.load r.relpath r.evs with offset := offOf ls r.loom }
+
+/-- The guards of `stream_clkoff_set` are dead on freshly loaded streams. -/
+theorem setOffsets_eq (ls : List (Str × Int)) : ∀ (rs : List Raw),
+    setOffsets ls rs = some (rs.map (mkStream ls)) := by
+  intro rs
+  induction rs with
+  | nil => rfl
+  | cons r rs ih =>
+    unfold setOffsets
+    rw [ih]
+    simp [Stream.clkoffSet, Stream.load, mkStream]
+
+theorem mkStream_loaded (ls : List (Str × Int)) (r : Raw) : Loaded (mkStream ls r) :=
+  ⟨rfl, rfl, rfl, rfl⟩
+
+theorem load_loaded (rp : Str) (evs : List Ev) : Loaded (Stream.load rp evs) :=
+  ⟨rfl, rfl, rfl, rfl⟩
 
 end Ovni.Player
